@@ -12,7 +12,12 @@ def check(tier, seed):
                  dict(name='lifecycle_storms', kind="monitor", shards=lambda t: 2 if t == "quick" else 8,
                       args=lambda t, s, sh, path: ['c14-monitor', 40 if t == "quick" else 1500, s * 1000 + sh]),
                  dict(name='lifecycle_storms_race', kind="monitor", shards=lambda t: 2 if t == "quick" else 8,
-                      args=lambda t, s, sh, path: ['c14-monitor', 15 if t == "quick" else 300, s * 1000 + sh], race=True)])
+                      args=lambda t, s, sh, path: ['c14-monitor', 15 if t == "quick" else 300, s * 1000 + sh], race=True),
+                 # whole UCI sessions (isready during a search, go right after bestmove, hash commands while searching) under
+                 # the race detector: the handler's output path and option handling are shared between the two goroutines
+                 dict(name='uci_sessions_race', kind="monitor", shards=lambda t: 2 if t == "quick" else 8,
+                      args=lambda t, s, sh, path: ['c12-monitor', 2 if t == "quick" else 30, s * 1000 + 770 + sh], race=True,
+                      violation_kinds=["no-bestmove", "bestmove-count", "readyok-missing", "isready-not-answered-while-searching", "stop-not-prompt", "uciok-missing"])])
 
 
 def replay(path):
